@@ -19,6 +19,9 @@ typedef struct {
 	dir_tree_cfg_t cfg;
 	int state;
 	sqfs_dir_iterator_t *rec;
+
+	/* the entry returned last is a hard link to an earlier entry */
+	bool is_hard_link;
 } dir_tree_iterator_t;
 
 static bool should_skip(const dir_tree_iterator_t *dir, const sqfs_dir_entry_t *ent)
@@ -120,6 +123,8 @@ retry:
 		ent = NULL;
 	}
 
+	it->is_hard_link = (ent->flags & SQFS_DIR_ENTRY_FLAG_HARD_LINK) != 0;
+
 	ent = expand_path(it, ent);
 	if (ent == NULL) {
 		it->state = SQFS_ERROR_ALLOC;
@@ -163,10 +168,36 @@ static int read_link(sqfs_dir_iterator_t *base, char **out)
 {
 	dir_tree_iterator_t *it = (dir_tree_iterator_t *)base;
 
+	int ret;
+
 	if (it->state)
 		return it->state;
 
-	return it->rec->read_link(it->rec, out);
+	ret = it->rec->read_link(it->rec, out);
+	if (ret != 0)
+		return ret;
+
+	/* a hard link target is an entry path: it gets the same prefix */
+	if (it->is_hard_link && it->cfg.prefix != NULL &&
+	    it->cfg.prefix[0] != '\0') {
+		size_t plen = strlen(it->cfg.prefix);
+		size_t tlen = strlen(*out);
+		char *str = malloc(plen + 1 + tlen + 1);
+
+		if (str == NULL) {
+			free(*out);
+			*out = NULL;
+			return SQFS_ERROR_ALLOC;
+		}
+
+		memcpy(str, it->cfg.prefix, plen);
+		str[plen] = '/';
+		memcpy(str + plen + 1, *out, tlen + 1);
+		free(*out);
+		*out = str;
+	}
+
+	return 0;
 }
 
 static int open_subdir(sqfs_dir_iterator_t *base, sqfs_dir_iterator_t **out)
